@@ -180,6 +180,11 @@ func makeReplay(m *interp.Machine, prop string, u Unit, r *interp.PathResult, ci
 		meta["status"] = r.Checks[ci].Status
 		meta["deviation"] = r.Checks[ci].Dev
 	}
+	for _, nt := range r.Notes {
+		if strings.HasPrefix(nt, "fields-read-by-generator=") {
+			_ = os.WriteFile(filepath.Join(dir, "fields_read.txt"), []byte(strings.TrimPrefix(nt, "fields-read-by-generator=")), 0o644)
+		}
+	}
 	mb, _ := json.MarshalIndent(meta, "", " ")
 	if err := os.WriteFile(filepath.Join(dir, "meta.json"), mb, 0o644); err != nil {
 		return nil, err
